@@ -211,6 +211,9 @@ def check_case(case, shard, inner):
     shard.covered("levels", level)
     if case.get("grid_points"):
         shard.covered("grid_spacing", "non-uniform")
+    if case.get("signal_scale"):
+        shard.covered("limit_magnitudes", "limit of order 1e-2 to 1e-3 (signal scaled by %g)" % case["signal_scale"])
+        shard.maximum("smallest_limit_seen_inverse", 1.0 / max(min(limits), 1e-300))
     shard.covered("modes", case["mode"] + ("/deprecated-api" if case.get("deprecated_api") else "") + ("/direct" if case.get("direct_grid") else ""))
     for k in case["opts"]:
         shard.covered("forwarded_options", k)
@@ -253,6 +256,13 @@ def make_case(rng, backend, kind):
     elif r < 0.55:
         opts["par_bounds_hi"] = 12.0
     case = {"spec": spec, "data": data, "level": level, "mode": mode, "opts": opts, "backend": backend, "seed": rng.randrange(1 << 30)}
+    if kind == "counting" and mode == "auto" and rng.random() < 0.4:
+        # a signal normalised to a large cross-section: the limit sits at mu of order 1e-2 to 1e-3, where only a
+        # tolerance RELATIVE to mu (the root finder's promise) locates it
+        k = rng.choice([100.0, 300.0])  # (from ~1000 on SciPy SLSQP stalls at the default start mu=1: finding recorded under C05)
+        for ch in spec["channels"]:
+            ch["samples"][0]["data"] = [gen._round(v * k, 2) for v in ch["samples"][0]["data"]]
+        case["signal_scale"] = k
     if mode == "grid":
         case["grid"] = [gen._round(rng.uniform(0.02, 0.15), 3), gen._round(rng.uniform(4.0, 9.5), 2), rng.randint(6, 14)]
         case["direct_grid"] = rng.random() < 0.3
